@@ -249,7 +249,7 @@ def ok_out_param(xs, acc):
 
 
 M.contract(P + ':ok_out_param', params=dict(xs=ListOf(Int), acc=MListOf(FixedList(Int, Int, as_tuple=True))),
-           old=lambda acc: len(acc), returns=Int,
+           old=lambda acc: len(acc), returns=Int, modifies=('acc',),
            ensures={'appended': lambda xs, acc, old, result: result == old + len(xs) and len(acc) == result
                     and forall_range(0, len(xs), lambda k: acc[old + k][1] == xs[k] + 1)},
            raises_only=())
